@@ -304,4 +304,163 @@ theorem binLevel_top {recog lower Opnd IsOp FollowT FollowL}
     rw [e2]
 
 
+/-! ## a concrete layer: `MultiplicativeExpr` over atoms -/
+
+/-- the opaque atoms of `PrimaryExpr`: number literal, string literal, variable reference -/
+def IsAtom : E → Prop
+  | .num .. => True
+  | .lit .. => True
+  | .var .. => True
+  | _ => False
+
+def IsMulOp : BinOp → Prop
+  | .mult => True | .div => True | .mod => True | _ => False
+
+/-- what may follow an operand of the multiplicative layer when the chain ends -/
+def FollowMul (ts : List Tok) : Prop :=
+  ts.head? ≠ some .star ∧ ts.head? ≠ some .bar ∧ ∀ j, ts.head? ≠ some (.name .div j) ∧ ts.head? ≠ some (.name .mod j)
+
+def NotBar (ts : List Tok) : Prop := ts.head? ≠ some .bar
+
+theorem primary_atom (expr : St → Option St) (a : E) (ha : IsAtom a) (b : List Int) (ts : List Tok) :
+    primaryExpr expr ⟨mk b, a.toks ++ ts⟩ = some ⟨mk (b ++ a.enc), ts⟩ := by
+  cases a <;> simp only [IsAtom] at ha
+  · -- num
+    simp only [E.toks, List.cons_append, List.nil_append, primaryExpr, St.cur, List.head?_cons, pos_mk]
+    rw [appendOpCode_mk2 b eOP_NUMBERLIT (by decide)]
+    simp only [Option.bind_eq_bind, Option.bind_some, pushArg_mk, List.append_assoc, List.cons_append, List.nil_append]
+    rw [updateOpCodeLength_mk b _ eOP_NUMBERLIT 2 (by decide)]
+    simp [E.enc]
+  · -- lit
+    simp only [E.toks, List.cons_append, List.nil_append, primaryExpr, St.cur, List.head?_cons, pos_mk]
+    rw [appendOpCode_mk2 b eOP_LITERAL (by decide)]
+    simp only [Option.bind_eq_bind, Option.bind_some, pushArg_mk, List.append_assoc, List.cons_append, List.nil_append]
+    rw [updateOpCodeLength_mk b _ eOP_LITERAL 2 (by decide)]
+    simp [E.enc]
+  · -- var
+    simp only [E.toks, List.cons_append, List.nil_append, primaryExpr, St.cur, List.head?_cons, pos_mk]
+    rw [appendOpCode_mk2 b eOP_VARIABLE (by decide)]
+    simp only [Option.bind_eq_bind, Option.bind_some, pushArg_mk, List.append_assoc, List.cons_append, List.nil_append]
+    rw [updateOpCodeLength_mk b _ eOP_VARIABLE 2 (by decide)]
+    simp [E.enc]
+
+theorem tok_beq_minus (t : Tok) (h : t ≠ Tok.minus) : (t == Tok.minus) = false := by
+  cases t <;> first | rfl | (exact absurd rfl h)
+
+theorem tok_beq_bar (t : Tok) (h : t ≠ Tok.bar) : (t == Tok.bar) = false := by
+  cases t <;> first | rfl | (exact absurd rfl h)
+
+theorem opt_beq_some (o : Option Tok) (k : Tok) (hk : ∀ t, t ≠ k → (t == k) = false) (h : o ≠ some k) : (o == some k) = false := by
+  cases o with
+  | none => rfl
+  | some t =>
+    have : t ≠ k := fun e => h (by rw [e])
+    show (t == k) = false
+    exact hk t this
+
+theorem atom_enc_hdr (a : E) (ha : IsAtom a) :
+    ∃ c Z, a.enc = c :: (a.enc.length : Int) :: Z ∧ getOpCodeLength c > 1 := by
+  cases a <;> simp only [IsAtom] at ha
+  · exact ⟨eOP_NUMBERLIT, _, rfl, by decide⟩
+  · exact ⟨eOP_LITERAL, _, rfl, by decide⟩
+  · exact ⟨eOP_VARIABLE, _, rfl, by decide⟩
+
+theorem atom_toks_head (a : E) (ha : IsAtom a) : ∃ t rest, a.toks = t :: rest ∧ t ≠ Tok.minus ∧ t ≠ Tok.bar := by
+  cases a <;> simp only [IsAtom] at ha
+  · exact ⟨_, _, rfl, by simp, by simp⟩
+  · exact ⟨_, _, rfl, by simp, by simp⟩
+  · exact ⟨_, _, rfl, by simp, by simp⟩
+
+theorem unionExpr_atom (expr : St → Option St) (a : E) (ha : IsAtom a) (b : List Int) (ts : List Tok) (hts : NotBar ts) :
+    unionExpr expr ⟨mk b, a.toks ++ ts⟩ = some ⟨mk (b ++ a.enc), ts⟩ := by
+  obtain ⟨c, Z, hA, hc⟩ := atom_enc_hdr a ha
+  have hcur : ((St.mk (mk (b ++ a.enc)) ts).cur == some Tok.bar) = false :=
+    opt_beq_some _ _ tok_beq_bar hts
+  simp only [unionExpr, pos_mk]
+  have hloop : unionLoop expr (b.length + 2) ((a.toks ++ ts).length + 1) false ⟨mk b, a.toks ++ ts⟩
+      = some ⟨mk (b ++ a.enc), ts⟩ := by
+    simp only [unionLoop, pathExpr, primary_atom expr a ha b ts, Option.bind_eq_bind, Option.bind_some, hcur,
+      Bool.false_eq_true, if_false]
+  rw [hloop]
+  simp only [Option.bind_eq_bind, Option.bind_some]
+  have : mk (b ++ a.enc) = mk (b ++ c :: (a.enc.length : Int) :: Z) := by rw [← hA]
+  rw [this, updateOpCodeLengthAt_mk b Z c _ (by omega)]
+  have e : ((Z.length : Int) + 2) = (a.enc.length : Int) := by
+    have := congrArg List.length hA
+    simp at this
+    omega
+  rw [e, ← hA]
+  rfl
+
+theorem unaryExpr_atom (expr : St → Option St) (a : E) (ha : IsAtom a) (b : List Int) (ts : List Tok) (hts : NotBar ts) :
+    unaryExpr expr ⟨mk b, a.toks ++ ts⟩ = some ⟨mk (b ++ a.enc), ts⟩ := by
+  obtain ⟨t, rest, ht, hm, _⟩ := atom_toks_head a ha
+  have hcur : ((St.mk (mk b) (a.toks ++ ts)).cur == some Tok.minus) = false := by
+    simp only [St.cur, ht, List.cons_append, List.head?_cons]
+    exact opt_beq_some _ _ tok_beq_minus (by simp [hm])
+  simp only [unaryExpr, unaryF, hcur, Bool.false_eq_true, if_false]
+  exact unionExpr_atom expr a ha b ts hts
+
+theorem atom_toks_ne_nil (a : E) (ha : IsAtom a) : a.toks ≠ [] := by
+  obtain ⟨t, rest, ht, _, _⟩ := atom_toks_head a ha
+  rw [ht]; simp
+
+theorem recogMul_op (op : BinOp) (j : Int) (a : E) (m : OpMap) (ts : List Tok) (hop : IsMulOp op) (ha : IsAtom a) :
+    recogMul ⟨m, op.toks j ++ (a.toks ++ ts)⟩ = some ⟨op.code, ⟨m, a.toks ++ ts⟩, true⟩ := by
+  obtain ⟨t, rest, ht, _, _⟩ := atom_toks_head a ha
+  cases op <;> simp only [IsMulOp] at hop <;>
+    simp [recogMul, BinOp.toks, BinOp.code, St.cur, St.adv, St.next, ht]
+
+theorem recogMul_no (m : OpMap) (ts : List Tok) (h : FollowMul ts) : recogMul ⟨m, ts⟩ = none := by
+  obtain ⟨h1, _, h3⟩ := h
+  cases ts with
+  | nil => rfl
+  | cons t rest =>
+    cases t with
+    | star => exact absurd rfl h1
+    | name k j =>
+      cases k with
+      | div => exact absurd rfl (h3 j).1
+      | mod => exact absurd rfl (h3 j).2
+      | and => rfl
+      | or => rfl
+      | other => rfl
+    | _ => rfl
+
+theorem mulLevelSpec (expr : St → Option St) :
+    LevelSpec recogMul (unaryExpr expr) IsAtom IsMulOp FollowMul NotBar where
+  lower_ok a ha b ts hts := unaryExpr_atom expr a ha b ts hts
+  recog_op op j a m ts hop ha := recogMul_op op j a m ts hop ha
+  recog_no m ts h := recogMul_no m ts h
+  code_len op hop := by cases op <;> simp only [IsMulOp] at hop <;> decide
+  enc_hdr a ha := atom_enc_hdr a ha
+  followL_T ts h := h.2.1
+  followL_op op j a ts hop _ := by
+    cases op <;> simp only [IsMulOp] at hop <;> simp [NotBar, BinOp.toks]
+
+/-- **`MultiplicativeExpr` over atoms, complete**: for atoms `a, a₁ … aₙ` (number / string literals, variable references)
+and operators `*`, `div`, `mod`, any `n`, the real model function `mulExpr` appends exactly the encoding of the
+left-nested tree `((a op₁ a₁) op₂ a₂) …` and consumes exactly the chain. -/
+theorem mulExpr_atoms (expr : St → Option St) (a : E) (ha : IsAtom a) (rest : Chain)
+    (hall : ∀ x ∈ rest, IsMulOp x.1 ∧ IsAtom x.2.2) (b : List Int) (ts : List Tok) (hts : FollowMul ts) :
+    mulExpr expr ⟨mk b, a.toks ++ (chainToks rest ++ ts)⟩ = some ⟨mk (b ++ (foldChain a rest).enc), ts⟩ := by
+  have hlen : rest.length < (a.toks ++ (chainToks rest ++ ts)).length + 1 := by
+    have : ∀ (r : Chain), r.length ≤ (chainToks r).length := by
+      intro r
+      induction r with
+      | nil => simp [chainToks]
+      | cons x r ih =>
+        obtain ⟨op, j, y⟩ := x
+        have : 1 ≤ (op.toks j).length := by cases op <;> simp [BinOp.toks]
+        simp only [chainToks, List.length_cons, List.length_append]
+        omega
+    have := this rest
+    simp only [List.length_append]
+    omega
+  have := binLevel_top (mulLevelSpec expr) rest hall a ha _ hlen b ts hts
+  simp only [mulExpr, runLevel]
+  rw [this]
+  rfl
+
+
 end XalanModel.C02
